@@ -31,6 +31,9 @@ structure Cfg where
 deriving Repr
 def Cfg.pinned : Cfg := ⟨false, false, false, false⟩
 def Cfg.repaired : Cfg := ⟨true, true, true, true⟩
+/-- the configuration that models `/repo` as it is now (all four repairs are `fix:` commits). The correspondence harness and
+    the C13/C16 theorems use this one; `Cfg.pinned` is kept for the counterexample theorems that show each guard is needed. -/
+def Cfg.current : Cfg := Cfg.repaired
 
 structure St where
   kind     : Kind := .init
@@ -156,7 +159,7 @@ def step (cfg : Cfg) (s : St) (c : Cmd) : St × List Eff :=
     | _, _ => (s, [.panic "internal_consts_sent in wrong state"])
   | .mpcMsg sender =>
     if sender < s.chanLen then (s, [.reply "msg" true ""])
-    else if cfg.msgBoundsCheck then (s, [.reply "msg" false "UnknownParty"])
+    else if cfg.msgBoundsCheck then (s, [.reply "msg" false "UnknownSender"])
     else ({ s with stopped := true }, [.panic "channel_senders[from]", .replyDropped "msg"])
   | .stop => stopWith s []
   | .cancel =>
